@@ -449,9 +449,14 @@ Proof. cbn zeta. rewrite handle_hb_spec. unfold same_track; cbn; auto. Qed.
 Lemma handle_if_eq v c n k d :
   handle_if v c n k d =
   if negb (tracked c k) then (n, []) else
-  let n2 := adjust_priority c (track_update v n k d) (if_delta c (track_update v n k d)) in
+  let n2 := adjust_or_skip c n (track_update v n k d) (if_delta c (track_update v n k d)) in
   if d && sst_eqb (n_st n2) StandbyAlone then tracker_promote n2 else (n2, []).
 Proof. reflexivity. Qed.
+
+Lemma adjust_or_skip_frame c n0 n1 delta :
+  n_st (adjust_or_skip c n0 n1 delta) = n_st n1 /\ n_pknown (adjust_or_skip c n0 n1 delta) = n_pknown n1 /\
+  n_cnt (adjust_or_skip c n0 n1 delta) = n_cnt n1 /\ n_down (adjust_or_skip c n0 n1 delta) = n_down n1.
+Proof. unfold adjust_or_skip. destruct (c_coalesce c && (n_cnt n1 =? n_cnt n0)); cbn; auto. Qed.
 
 Lemma track_update_st v n k d :
   n_st (track_update v n k d) = n_st n /\ n_pknown (track_update v n k d) = n_pknown n.
@@ -467,14 +472,15 @@ Lemma if_facts v c n k d :
   (tracked c k = true ->
    let n1 := track_update v n k d in
    n_cnt n' = n_cnt n1 /\ n_down n' = n_down n1 /\
-   n_eff n' = n_eff (adjust_priority c n1 (if_delta c n1))).
+   n_eff n' = n_eff (adjust_or_skip c n n1 (if_delta c n1))).
 Proof.
   cbn zeta. rewrite handle_if_eq. destruct (tracked c k); cbn [negb andb fst].
   2:{ repeat split; auto; discriminate. }
   destruct (track_update_st v n k d) as [Hs Hk].
   set (n1 := track_update v n k d) in *.
-  assert (Hst : n_st (adjust_priority c n1 (if_delta c n1)) = n_st n) by (cbn; exact Hs).
-  assert (Hpk : n_pknown (adjust_priority c n1 (if_delta c n1)) = n_pknown n) by (cbn; exact Hk).
+  destruct (adjust_or_skip_frame c n n1 (if_delta c n1)) as (F1 & F2 & F3 & F4).
+  assert (Hst : n_st (adjust_or_skip c n n1 (if_delta c n1)) = n_st n) by (rewrite F1; exact Hs).
+  assert (Hpk : n_pknown (adjust_or_skip c n n1 (if_delta c n1)) = n_pknown n) by (rewrite F2; exact Hk).
   rewrite Hst. destruct d; cbn [andb].
   - destruct (n_st n) eqn:E; cbn [sst_eqb];
       unfold tracker_promote; rewrite ?Hst; cbn [fst];
@@ -739,10 +745,17 @@ Proof.
     unfold track_inv. repeat split.
     + intros k'. rewrite Hd, Hda. apply Hdn1.
     + now rewrite Hc.
-    + rewrite He, spec_eff_cnt. destruct (Z.eqb_spec (c_dec c) 0); [contradiction|].
-      apply adjust_small; auto; [lia|].
-      unfold spec_cnt. destruct (c_dec c =? 0); [lia|].
-      apply count_down_bounds.
+    + rewrite He. unfold adjust_or_skip.
+      destruct (c_coalesce c && (n_cnt (track_update v n k d) =? n_cnt n)) eqn:Q.
+      * (* coalesced: the count did not move, neither does the specification *)
+        apply andb_prop in Q. destruct Q as [_ Q]. apply Z.eqb_eq in Q.
+        assert (Heff : n_eff (track_update v n k d) = n_eff n).
+        { unfold track_update. destruct (fix_if v), (Bool.eqb d (mem_nat k (n_down n))), d, (0 <? n_cnt n); reflexivity. }
+        rewrite Heff, I3, !spec_eff_cnt. now rewrite <- Hcnt1, Q, I2.
+      * rewrite spec_eff_cnt. destruct (Z.eqb_spec (c_dec c) 0); [contradiction|].
+        apply adjust_small; auto; [lia|].
+        unfold spec_cnt. destruct (c_dec c =? 0); [lia|].
+        apply count_down_bounds.
   - (* untracked interface: ignored *)
     rewrite (Hun eq_refl). clear Hun Htr.
     assert (Hcd : spec_cnt c w (es ++ [EIf w k d]) = spec_cnt c w es).
